@@ -342,6 +342,12 @@ func runC10(r *core.Run) {
 		cases = append(cases, c10Case{Kind: "plain", Names: names, Permute: len(names) <= 4, Variant: "shared-targets"})
 	}
 	cases = append(cases, c10Case{Kind: "plain", Permute: true, Variant: "mixed-threshold"}, c10Case{Kind: "quick", Variant: "mixed-threshold"})
+	// two names with the same 64-bit hash: whatever the builder answers (it has
+	// to refuse), the answer must not depend on the order of the entries
+	ca, cb := gen.CollidingPair()
+	for _, f := range []int{8, 256} {
+		cases = append(cases, c10Case{Kind: "sharded", Fanout: f, Names: []string{ca, cb}, Permute: true}, c10Case{Kind: "sharded", Fanout: f, Names: []string{ca, "k75", cb, "b c"}, Permute: true})
+	}
 	if !r.Quick() {
 		du := gen.DeepUniverse()
 		for mask := 3; mask < 1<<uint(len(du)); mask += 97 {
